@@ -96,8 +96,9 @@ def gen_definition(rng, tag):
     d.tag = tag
     pars = []          # [name, units, default, [lo, hi], type, desc]
     nvol = rng.choice([0, 1, 1, 2, 2, 3])
-    if tag == 0:
-        nvol = max(nvol, 1)      # the first definition of every run is hollow and gets the mesh beyond one kernel invocation
+    if tag in (0, 1):
+        nvol = max(nvol, 1)      # the first definition of every run is hollow and gets the mesh beyond one kernel invocation;
+        #                          the second has a validity region that cuts through a dispersed mesh
     nsld = rng.randint(0, 2)
     npl = rng.randint(0, 3)
     if nvol + nsld + npl == 0:
@@ -140,7 +141,9 @@ def gen_definition(rng, tag):
     d.vectorized = rng.random() < 0.6
     # a scalar (point-by-point) kernel may treat the origin apart and write the limit there as a whole number:
     # "if q == 0: return 1".  The q vectors of such a definition start at the origin.
-    d.origin_int = (not d.vectorized) and rng.random() < 0.6
+    if tag == 2:
+        d.vectorized = False
+    d.origin_int = (not d.vectorized) and (rng.random() < 0.6 or tag == 2)
     d.Iq = ("+", gen_expr(rng, iq_vars + ["q", "q"], 3, scalars), ("sdiv", ("var", rng.choice(iq_vars)), ("*", ("var", "q"), ("num", 20.0))))
     d.Iqxy = None
     if rng.random() < 0.3:
@@ -152,7 +155,7 @@ def gen_definition(rng, tag):
         d.modes = [pos_expr(rng, vol_vars, 2) for _ in range(rng.randint(1, 3))]
     d.valid = None
     vs = [p for p in d.pars if p[4] == "volume" and p[0] != "th[n]"]
-    if vs and rng.random() < 0.5:
+    if vs and (rng.random() < 0.5 or tag == 1):
         p = rng.choice(vs)
         d.valid = (p[0], round(p[2] * rng.uniform(0.8, 1.05), 3))      # valid iff name > threshold (the default may be invalid)
     return d
@@ -418,7 +421,11 @@ def main(run):
     ndef = 10 if not thorough else 80
     nmesh = 6 if not thorough else 12
     for t in range(ndef):
-        d = gen_definition(rng, t)
+        # the first three definitions and their meshes are a CORPUS: drawn from fixed streams, the same in every run
+        # whatever the seed (hollow x mesh beyond one kernel invocation; a validity region cutting through a dispersed
+        # mesh; a scalar kernel returning a whole number at the origin)
+        drng = random.Random(7001 + t) if t < 3 else rng
+        d = gen_definition(drng, t)
         cname, pname = "verif_c09_c%d_%d" % (run.seed, t), "verif_c09_p%d_%d" % (run.seed, t)
         cpath, ppath = os.path.join(pdir, cname + ".py"), os.path.join(pdir, pname + ".py")
         open(cpath, "w").write(c_module(d, cname)); open(ppath, "w").write(py_module(d, pname))
@@ -453,36 +460,41 @@ def main(run):
             pars = {}
             for p in kp:
                 if p.name == "n":
-                    pars["n"] = float(rng.randint(0, d.vector[1]))
+                    pars["n"] = float(drng.randint(0, d.vector[1]))
                 else:
-                    pars[p.name] = p.default * rng.uniform(0.7, 1.3) if rng.random() < 0.8 else p.default
+                    pars[p.name] = p.default * drng.uniform(0.7, 1.3) if drng.random() < 0.8 else p.default
                     pars[p.name] = float(min(max(pars[p.name], p.limits[0]), p.limits[1]))
-            kind = rng.choice(["mono", "pd", "pd", "pd2", "pd2", "cut1", "allinvalid" if d.valid else "pd"])
+            kind = drng.choice(["mono", "pd", "pd", "pd2", "pd2", "cut1", "allinvalid" if d.valid else "pd"])
             if t == 0 and m == 1:
                 kind = "pd"          # corpus: hollow definition x more than 100 mesh points, every run
             pdn = [p.name for p in kp if p.polydisperse]
+            corpus_valid = t == 1 and m == 0 and d.valid is not None and d.valid[0] in pdn
+            if corpus_valid:
+                kind = "pd"          # corpus: invalid mesh points FOLLOWED by valid ones in loop order, every run
             if kind in ("pd", "pd2", "cut1") and pdn:
-                for nm in rng.sample(pdn, min(len(pdn), 1 if kind != "pd2" else rng.randint(2, 3))):
-                    pars[nm + "_pd"] = rng.uniform(0.05, 0.5); pars[nm + "_pd_n"] = rng.randint(2, 7)
+                for nm in ([d.valid[0]] if corpus_valid else drng.sample(pdn, min(len(pdn), 1 if kind != "pd2" else drng.randint(2, 3)))):
+                    pars[nm + "_pd"] = drng.uniform(0.05, 0.5); pars[nm + "_pd_n"] = drng.randint(2, 7)
                     # one mesh per definition goes beyond a single kernel invocation (the compiled path runs the
                     # mesh in slices of 100 points and carries its running sums from one slice to the next)
                     if m == 1 and kind in ("pd", "pd2"):
                         first_ = not any(k_.endswith("_pd_n") and k_ != nm + "_pd_n" for k_ in pars)
                         if kind == "pd":
-                            pars[nm + "_pd_n"] = rng.choice([101, 130, 257])
+                            pars[nm + "_pd_n"] = drng.choice([101, 130, 257])
                         else:
-                            pars[nm + "_pd_n"] = 41 if first_ else rng.choice([2, 3])
+                            pars[nm + "_pd_n"] = 41 if first_ else drng.choice([2, 3])
                         stats["large_meshes"] = stats.get("large_meshes", 0) + int(first_)
-                    pars[nm + "_pd_type"] = rng.choice(["gaussian", "rectangle", "schulz", "lognormal"]); pars[nm + "_pd_nsigma"] = rng.choice([2.0, 3.0])
+                    pars[nm + "_pd_type"] = drng.choice(["gaussian", "rectangle", "schulz", "lognormal"]); pars[nm + "_pd_nsigma"] = drng.choice([2.0, 3.0])
+                    if corpus_valid:
+                        pars[nm] = float(d.valid[1]); pars[nm + "_pd"] = 0.3; pars[nm + "_pd_n"] = 7; pars[nm + "_pd_type"] = "gaussian"; pars[nm + "_pd_nsigma"] = 3.0
                     if kind == "cut1":
                         pars[nm + "_pd"] = 1.0; pars[nm + "_pd_n"] = 2; pars[nm + "_pd_type"] = "gaussian"; pars[nm + "_pd_nsigma"] = 3.0
             if kind == "allinvalid":
                 pars[d.valid[0]] = d.valid[1] * 0.5
-                if rng.random() < 0.5:
+                if drng.random() < 0.5:
                     pars[d.valid[0] + "_pd"] = 0.1; pars[d.valid[0] + "_pd_n"] = 3
-            cutoff = rng.choice([0.0, 1e-5, 1e-3, 0.05])
-            mode = rng.randint(0, len(d.modes)) if d.modes else 0
-            scale, bg = rng.uniform(0.3, 2), rng.choice([0.0, rng.uniform(0.01, 0.2)])
+            cutoff = drng.choice([0.0, 1e-5, 1e-3, 0.05])
+            mode = drng.randint(0, len(d.modes)) if d.modes else 0
+            scale, bg = drng.uniform(0.3, 2), drng.choice([0.0, drng.uniform(0.01, 0.2)])
             full = dict(pars, scale=scale, background=bg)
             desc = dict(desc0, pars=pars, cutoff=cutoff, mode=mode, scale=scale, background=bg, q=[x.tolist() for x in q], kind=kind)
             kc, kpy = mc.make_kernel(q), mp.make_kernel(q)
@@ -491,11 +503,11 @@ def main(run):
             # the longest distribution scaled up, the others down, so that outer partial products fall below the
             # cutoff while the full product does not
             mesh = get_mesh(info, dict(full), dim="2d" if two_d else "1d")
-            unnorm = kind in ("pd", "pd2") and rng.random() < 0.4 and max(len(mm[2]) for mm in mesh) > 1
+            unnorm = kind in ("pd", "pd2") and drng.random() < 0.4 and max(len(mm[2]) for mm in mesh) > 1
             if unnorm:
                 lens_ = [len(mm[2]) for mm in mesh]
                 longest = int(np.argmax(lens_))
-                fac = rng.choice([30.0, 1e3, 1e5])
+                fac = drng.choice([30.0, 1e3, 1e5])
                 nact = sum(1 for n_ in lens_ if n_ > 1)
                 mesh = [(v, vals, np.asarray(w, "d") * (fac if k == longest else (fac ** (-1.0 / max(1, nact - 1)) if len(w) > 1 else 1.0)))
                         for k, (v, vals, w) in enumerate(mesh)]
